@@ -17,9 +17,9 @@ Open Scope Z_scope.
 (* 1. Unbounded, independent of any float reasoning: an open that succeeds maps
    no more than the file holds (ns*nc*2 <= nbytes), hence exposes at most the
    complete frames — for either reader class and whatever the meta file says. *)
-Theorem C11_opened_within_file : forall online wok nbytes nc fts fs ns nc' fts' rw,
+Theorem C11_opened_within_file : forall online nbytes nc fts fs ns nc' fts' rw,
   1 <= nc ->
-  open_bin online wok nbytes nc fts fs = Opened ns nc' fts' rw ->
+  open_bin online nbytes nc fts fs = Opened ns nc' fts' rw ->
   nc' = nc /\ 0 <= ns /\ ns * nc * 2 <= nbytes /\ ns <= nbytes / (2 * nc).
 Proof. exact opened_within_file. Qed.
 Print Assumptions C11_opened_within_file.
@@ -47,27 +47,24 @@ Print Assumptions C11_reads_within_file.
    convert (ns0): whatever that entry claims — more, fewer or as many frames —
    and whatever number of trailing bytes the file has, the open succeeds and
    exposes exactly k = floor(nbytes / (2 nc)) frames; fileTimeSecs is rewritten
-   exactly when the claim disagrees with the size, and then to k / fs = rl.
-   (wok: ignore_warnings or the meta file has fileSizeBytes and fileTimeSecs.) *)
-Theorem C11_offline_exposes_floor : forall wok nbytes nc t fs ns0,
+   exactly when the claim disagrees with the size, and then to k / fs = rl. *)
+Theorem C11_offline_exposes_floor : forall nbytes nc t fs ns0,
   1 <= nc -> 1 <= nbytes -> nbytes / (2 * nc) <= 2 ^ 50 -> fs_ok fs ->
   ns_meta (Some t) fs = NsOk ns0 ->
-  wok = true ->
   let k := nbytes / (2 * nc) in
   let rw := negb (nc * ns0 * 2 =? nbytes) in
-  open_bin false wok nbytes nc (Some t) fs =
+  open_bin false nbytes nc (Some t) fs =
     Opened k nc (if rw then Some (rl k fs) else Some t) rw.
 Proof. exact open_offline_floor. Qed.
 Print Assumptions C11_offline_exposes_floor.
 
 (* 4. OnlineReader: int(st_size / 2 / nc) is the floor, for st_size, nc < 2^53;
    the open succeeds whatever the meta file holds. *)
-Theorem C11_online_exposes_floor : forall wok nbytes nc fts fs,
+Theorem C11_online_exposes_floor : forall nbytes nc fts fs,
   1 <= nc < 2 ^ 53 -> 1 <= nbytes < 2 ^ 53 ->
-  wok = true ->
   let k := nbytes / (2 * nc) in
   let rw := negb (nc * k * 2 =? nbytes) in
-  open_bin true wok nbytes nc fts fs =
+  open_bin true nbytes nc fts fs =
     Opened k nc (if rw then Some (rl k fs) else fts) rw.
 Proof. exact open_online_floor. Qed.
 Print Assumptions C11_online_exposes_floor.
@@ -98,17 +95,25 @@ Theorem C11_cbin_short_stream : forall chns nc t fs ns0,
 Proof. exact open_cbin_exposes. Qed.
 Print Assumptions C11_cbin_short_stream.
 
-(* 7. The clause "opening succeeds" is FALSE on the current code for a
-   recording in progress: full statement
-     forall nbytes nc fts fs, open_bin true wok nbytes nc fts fs = Opened ...
-   fails for wok = false (ignore_warnings=False and a meta file without
-   fileSizeBytes / fileTimeSecs, which is what SpikeGLX leaves while acquiring):
-   every file ending in a partial frame raises KeyError (F-C11-b). *)
-Theorem C11_online_in_progress_refuted : forall nbytes nc fts fs,
+(* 7. Recording in progress: the meta file has no fileTimeSecs (nor fileSizeBytes)
+   yet and the file ends in a partial frame (any number of trailing bytes).
+   OnlineReader opens, exposes the floor frame count and writes
+   fileTimeSecs = k / fs = rl (since repair 381463f the warning cannot raise). *)
+Theorem C11_online_in_progress : forall nbytes nc fs,
   1 <= nc < 2 ^ 53 -> 1 <= nbytes < 2 ^ 53 -> nbytes mod (2 * nc) <> 0 ->
-  open_bin true false nbytes nc fts fs = KeyErr.
-Proof. exact open_online_keyerror. Qed.
-Print Assumptions C11_online_in_progress_refuted.
+  let k := nbytes / (2 * nc) in
+  open_bin true nbytes nc None fs = Opened k nc (Some (rl k fs)) true.
+Proof. exact open_online_in_progress. Qed.
+Print Assumptions C11_online_in_progress.
+
+(* 8. The offline Reader on such a meta file: Reader.ns needs fileTimeSecs, so
+   the open raises TypeError (None * float) for every file, whatever its size —
+   the offline class cannot open a recording in progress; OnlineReader is the
+   class for that (theorems 4, 7). *)
+Theorem C11_offline_needs_fileTimeSecs : forall nbytes nc fs,
+  open_bin false nbytes nc None fs = TypeErr.
+Proof. exact open_offline_no_fts. Qed.
+Print Assumptions C11_offline_needs_fileTimeSecs.
 
 (* ---- the hypotheses are satisfiable on concrete, non-trivial inputs ---- *)
 Local Open Scope R_scope.
@@ -131,10 +136,15 @@ Proof. vm_compute. reflexivity. Qed.
 Example ex_offline : run [0; 0; 0; 1; 385 * 2 * 22 + 386; 385; 30000; 0; 1; 8255698596920435; -52]
                      = [0; 22; 385; 1; 3; 0; 6763806160360169; -63; 3; 0; 6763806160360169; -63].
 Proof. vm_compute. reflexivity. Qed.
-(* same file, fs = 30000.123, OnlineReader, meta of a recording in progress, ignore_warnings=True *)
+(* same file, fs = 30000.123, OnlineReader, meta of a recording in progress, ignore_warnings=True:
+   no warning logged *)
 Example ex_online : run [0; 1; 1; 0; 385 * 2 * 22 + 386; 385; 8246371018302554; -38; 0; 0; 0]
                     = [0; 22; 385; 0; 3; 0; 6763778428868611; -63; 3; 0; 6763778428868611; -63].
 Proof. vm_compute. reflexivity. Qed.
-(* the defect: same, ignore_warnings=False *)
-Example ex_online_keyerror : run [0; 1; 0; 0; 385 * 2 * 22 + 386; 385; 8246371018302554; -38; 0; 0; 0] = [4].
+(* same, ignore_warnings=False: opens as well, warning logged *)
+Example ex_online_warned : run [0; 1; 0; 0; 385 * 2 * 22 + 386; 385; 8246371018302554; -38; 0; 0; 0]
+                    = [0; 22; 385; 1; 3; 0; 6763778428868611; -63; 3; 0; 6763778428868611; -63].
+Proof. vm_compute. reflexivity. Qed.
+(* offline Reader on the in-progress meta file: TypeError *)
+Example ex_offline_typeerror : run [0; 0; 0; 0; 385 * 2 * 22 + 386; 385; 8246371018302554; -38; 0; 0; 0] = [3].
 Proof. vm_compute. reflexivity. Qed.
